@@ -6,6 +6,7 @@ import VsgModel.Engine.RuleRun
 import VsgModel.Engine.Relations
 import VsgModel.Check.Verdict
 import VsgProofs.Lemmas.Extras
+import VsgProofs.Lemmas.BaseLineStruct
 import VsgProofs.Lemmas.BaseWsEffects
 import VsgProofs.Lemmas.BaseBindEffects
 import VsgProofs.Lemmas.PostPhase1
@@ -251,5 +252,169 @@ theorem postPhase1_codeSeq (blCls : Nat) (l : List Tok) :
   exact (hl.codeSeq fold).symm
 
 /-! ### END ag_bind -/
+
+/-! ### layer B: the phase-1 line-structure base classes (≈110 rules)
+
+`Base.fixByOwner` is the Lean transcription of the `_fix_violation` of the owner; action, rule
+parameters and token list are universally quantified. -/
+
+section LineStruct
+open Vsgm.Base.LineStruct
+open Vsgm.Base (KV pyIdx)
+
+/-- **line-break inserting / removing base classes** (insert_carriage_return_after_token…,
+    split_line_at_token…, remove_carriage_return_after_token, remove_carriage_returns_between_token_pairs;
+    54 rules): whatever the action and the region, no code token is lost, duplicated or reordered -/
+theorem bfix_lineBreak_codeSeq (owner : String) (params action : KV) (old new : List Tok)
+    (ho : owner ∈ breakOwners ++ removeCrOwners) (h : Base.fixByOwner owner params action old = some (.ok new)) :
+    codeSeq fold new = codeSeq fold old := by
+  rw [fixByOwner_lineStruct owner params action old (layoutOwners_sub_all ho)] at h
+  exact ((dispatch_layout _ owner params action old new ho h).1.codeSeq fold).symm
+
+/-- **single-token moves** (move_token_next_to_another_token, …_if_it_exists_between_tokens,
+    move_token_left_…, move_token_right_…, move_token_to_the_right_of_several_possible_tokens…;
+    53 rules) — THE EXACT CONDITION: the fix pops the token `x` at index `k` and re-inserts it at
+    position `p`; the code sequence is unchanged iff what `x` contributes commutes with what the
+    tokens it jumps over (`crossed old k p`) contribute -/
+theorem bfix_move_codeSeq_iff (owner : String) (params action : KV) (old new : List Tok)
+    (ho : owner ∈ singleMoveOwners) (h : Base.fixByOwner owner params action old = some (.ok new)) :
+    ∃ ki ii k x, moveIdx owner action = some (ki, ii) ∧ pyIdx old.length ki = some k ∧ old[k]? = some x ∧
+      (codeSeq fold new = codeSeq fold old ↔
+        codeOf fold x ++ codeSeq fold (crossed old k (insPos (old.length - 1) ii)) =
+          codeSeq fold (crossed old k (insPos (old.length - 1) ii)) ++ codeOf fold x) := by
+  rw [fixByOwner_lineStruct owner params action old (singleMove_sub_all ho)] at h
+  obtain ⟨ki, ii, w, k, x, hidx, fo, _⟩ := dispatch_move _ owner params action old new ho h
+  exact ⟨ki, ii, k, x, hidx, fo.idx, fo.get, fo.codeSeq_iff fold⟩
+
+/-- … in particular the code sequence is kept whenever the moved token jumps over no code token
+    (the hypothesis is exactly the excluded case of `move_codeSeq_false`) -/
+theorem bfix_move_codeSeq_partial (owner : String) (params action : KV) (old new : List Tok)
+    (ho : owner ∈ singleMoveOwners) (h : Base.fixByOwner owner params action old = some (.ok new))
+    (hcross : ∀ ki ii k, moveIdx owner action = some (ki, ii) → pyIdx old.length ki = some k →
+      ∀ t ∈ crossed old k (insPos (old.length - 1) ii), t.isCode = false) :
+    codeSeq fold new = codeSeq fold old := by
+  obtain ⟨ki, ii, k, x, hidx, hk, _, hiff⟩ := bfix_move_codeSeq_iff fold owner params action old new ho h
+  rw [hiff, codeSeq_eq_nil_of_noCode fold _ (hcross ki ii k hidx hk)]
+  simp
+
+/-- the full-strength statement is FALSE for an action that makes the token jump over code:
+    `[a, b, c]` with token value 2 becomes `[a, ␣, c, b]` -/
+theorem move_codeSeq_false :
+    ∃ old new, fixMoveNext Base.lineCls 2 old = .ok new ∧ codeSeq id new ≠ codeSeq id old :=
+  ⟨[⟨9, .code, ['a']⟩, ⟨9, .code, ['b']⟩, ⟨9, .code, ['c']⟩], _, rfl, by decide⟩
+
+/-- **move_token** (5 rules; three fixes selected by `action` / `preserve_comment`): splitting the
+    line and pulling the trailing comment in front of the new line break never touch code; the
+    `move_left` mode moves the last token of the region to index 1 -/
+theorem bfix_moveToken_codeSeq_partial (owner : String) (params action : KV) (old new : List Tok)
+    (ho : owner ∈ moveTokenOwners) (h : Base.fixByOwner owner params action old = some (.ok new))
+    (hcross : ∀ k, pyIdx old.length (-1) = some k → ∀ t ∈ crossed old k (insPos (old.length - 1) 1), t.isCode = false) :
+    codeSeq fold new = codeSeq fold old := by
+  rw [fixByOwner_lineStruct owner params action old (moveToken_sub_all ho)] at h
+  obtain ⟨a, pc, _, _, h1, h2, h3⟩ := dispatch_moveToken _ owner params action old new ho h
+  cases hm : moveTokenMode a pc with
+  | newLine => exact ((fixSplitLine_spec _ old new (h1 hm)).1.codeSeq fold).symm
+  | newLinePreserve =>
+    obtain ⟨i, _, hf⟩ := h2 hm
+    exact fixNewLinePreserve_codeSeq fold _ i old new hf
+  | moveLeft =>
+    obtain ⟨b, hf⟩ := h3 hm
+    obtain ⟨k, x, fo⟩ := fixMoveTokenLeft_spec _ b old new hf
+    rw [fo.codeSeq_iff fold, codeSeq_eq_nil_of_noCode fold _ (hcross k fo.idx)]
+    simp
+
+/-- **block_001** (move_token_sequences_left_of_token) — THE EXACT CONDITION: the fix swaps the
+    prefix `seqMoved` (the first `num_tokens` tokens after an optional leading whitespace) with
+    `seqJumped` (everything up to the last token); the code sequence is unchanged iff the two
+    contributions commute -/
+theorem bfix_moveSeq_codeSeq_iff (owner : String) (params action : KV) (old new : List Tok)
+    (ho : owner ∈ moveSeqOwners) (h : Base.fixByOwner owner params action old = some (.ok new)) :
+    ∃ n, Base.LineStruct.needInt action "num_tokens" = .ok n ∧
+      (codeSeq fold new = codeSeq fold old ↔
+        codeSeq fold (seqJumped n old) ++ codeSeq fold (seqMoved n old) =
+          codeSeq fold (seqMoved n old) ++ codeSeq fold (seqJumped n old)) := by
+  rw [fixByOwner_lineStruct owner params action old (moveSeq_sub_all ho)] at h
+  obtain ⟨n, hn, hf⟩ := dispatch_moveSeq _ owner params action old new ho h
+  obtain ⟨last, h1, h2, _⟩ := fixMoveSeq_spec _ n old new hf
+  refine ⟨n, hn, ?_⟩
+  rw [(blind_codeSeq fold).layoutOnly h1, (blind_codeSeq fold).layoutOnly h2]
+  exact swap_hom_iff (codeSeq fold) (codeSeq_append fold) _ _ _
+
+/-- block_001 keeps the code sequence when nothing but layout and comments stands between the moved
+    prefix and the `block` keyword (the hypothesis is exactly the excluded case of
+    `moveSeq_codeSeq_false`) -/
+theorem bfix_moveSeq_codeSeq_partial (owner : String) (params action : KV) (old new : List Tok)
+    (ho : owner ∈ moveSeqOwners) (h : Base.fixByOwner owner params action old = some (.ok new))
+    (hj : ∀ n, Base.LineStruct.needInt action "num_tokens" = .ok n → ∀ t ∈ seqJumped n old, t.isCode = false) :
+    codeSeq fold new = codeSeq fold old := by
+  obtain ⟨n, hn, hiff⟩ := bfix_moveSeq_codeSeq_iff fold owner params action old new ho h
+  rw [hiff, codeSeq_eq_nil_of_noCode fold _ (hj n hn)]
+  simp
+
+/-- the known defect: label, colon and keyword on three lines, `num_tokens = 1` (what the analysis
+    records): `block_label ⏎ : ⏎ block` becomes `⏎ : ⏎ block_label block` — code REORDERED -/
+theorem moveSeq_codeSeq_false :
+    ∃ old new, fixMoveSeq Base.lineCls 1 old = .ok new ∧ codeSeq id new ≠ codeSeq id old ∧
+      codeSeq id old = ["lbl".toList, ":".toList, "block".toList] ∧
+      codeSeq id new = [":".toList, "lbl".toList, "block".toList] :=
+  ⟨[⟨9, .code, "lbl".toList⟩, ⟨2, .cr, ['\n']⟩, ⟨9, .code, ":".toList⟩, ⟨2, .cr, ['\n']⟩, ⟨9, .code, "block".toList⟩],
+    _, rfl, by decide, by decide, by decide⟩
+
+/-- remove_lines_starting_with_token_between_token_pairs (sequential_006, variable_assignment_006,
+    phase 2): the fix deletes its whole region — it keeps the code sequence iff the region holds no code -/
+theorem bfix_removeLines_codeSeq_iff (owner : String) (params action : KV) (old new : List Tok)
+    (ho : owner ∈ removeLinesOwners) (h : Base.fixByOwner owner params action old = some (.ok new)) :
+    new = [] ∧ (codeSeq fold new = codeSeq fold old ↔ codeSeq fold old = []) := by
+  rw [fixByOwner_lineStruct owner params action old (removeLines_sub_all ho)] at h
+  simp only [removeLinesOwners, List.mem_singleton] at ho
+  subst ho
+  simp [Base.LineStruct.fixByOwner, moveNextOwners, moveNextBetweenOwners, moveLeftOwners, moveRightOwners,
+    moveTokenOwners, moveRightOfOwners, moveSeqOwners, insertCrAfterOwners, splitLineOwners, splitAtOwners,
+    removeCrAfterOwners, removeCrPairsOwners, removeLinesOwners, fixRemoveLines] at h
+  subst h
+  exact ⟨rfl, ⟨fun h => h.symm, fun h => h.symm⟩⟩
+
+/-- **table**: every rule served by a phase-1 model of this family is a phase-1 `structure` rule whose
+    edit class in the certificate checker is `none` — the checker demands code-sequence equality for
+    exactly these rules, and the theorems above prove that demand for all inputs and actions -/
+theorem lineStruct_owners_are_phase1_structure_rules : ∀ r ∈ Gen.ruleTable, r.fixVOwner ∈ phase1Owners →
+    Verdict.effectOfGroups r.groups = .any ∧ r.phase = 1 ∧ Verdict.editClassOfOwner r.fixVOwner = .none := by
+  decide +kernel
+
+/-- remove_lines… is the one base class of the family that serves phase-2 rules -/
+theorem removeLines_owners_are_phase2_structure_rules : ∀ r ∈ Gen.ruleTable, r.fixVOwner ∈ removeLinesOwners →
+    Verdict.effectOfGroups r.groups = .any ∧ r.phase = 2 ∧ Verdict.editClassOfOwner r.fixVOwner = .none := by
+  decide +kernel
+
+/-- how many rules the models serve (re-checked against the regenerated rule table) -/
+theorem lineStruct_rule_count :
+    (Gen.ruleTable.filter (fun r => decide (r.fixVOwner ∈ allOwners))).length = 114 := by decide +kernel
+
+example : ∃ r ∈ Gen.ruleTable, r.fixVOwner ∈ phase1Owners := by decide +kernel
+
+/-- non-vacuity of `bfix_move_codeSeq_partial`: `architecture ⏎ ␣ rtl`, token value 3 — the fix
+    returns, the moved token jumps over layout only, the result is `architecture ␣ rtl ⏎ ␣` -/
+example :
+    let a : Tok := ⟨9, .code, "architecture".toList⟩
+    let n : Tok := ⟨2, .cr, ['\n']⟩
+    let w : Tok := ⟨1, .ws, [' ']⟩
+    let x : Tok := ⟨9, .code, "rtl".toList⟩
+    fixMoveNext Base.lineCls 3 [a, n, w, x] = .ok [a, mkWs Base.lineCls, x, n, w] ∧
+    (∀ t ∈ crossed [a, n, w, x] 3 (insPos 3 1), t.isCode = false) := by
+  intro a n w x; exact ⟨rfl, by decide⟩
+
+/-- non-vacuity of `bfix_moveSeq_codeSeq_partial`: `lbl ␣ : ⏎ ␣ block` with `num_tokens = 3` (what the
+    analysis records for this layout) — nothing but layout is jumped over -/
+example :
+    let l : Tok := ⟨9, .code, "lbl".toList⟩
+    let c : Tok := ⟨9, .code, ":".toList⟩
+    let b : Tok := ⟨9, .code, "block".toList⟩
+    let n : Tok := ⟨2, .cr, ['\n']⟩
+    let w : Tok := ⟨1, .ws, [' ']⟩
+    fixMoveSeq Base.lineCls 3 [l, w, c, n, w, b] = .ok [n, w, l, w, c, mkWs Base.lineCls, b] ∧
+    seqMoved 3 [l, w, c, n, w, b] = [l, w, c] ∧ seqJumped 3 [l, w, c, n, w, b] = [n, w] := by
+  intro l c b n w; exact ⟨rfl, by decide, by decide⟩
+
+end LineStruct
 
 end Vsgm.C01
